@@ -228,6 +228,15 @@ func (s *Server) DialTCP(lip string, lport int, rip string, rport int) *memconn.
 	return c
 }
 
+// DialPair creates a buffered full-duplex in-memory connection, hands the
+// server end to the accept loop and returns the client end (for real client
+// libraries such as x/crypto/ssh and crypto/tls).
+func (s *Server) DialPair(lip string, lport int, rip string, rport int) *memconn.End {
+	srv, cli := memconn.Pair(&net.TCPAddr{IP: net.ParseIP(lip), Port: lport}, &net.TCPAddr{IP: net.ParseIP(rip), Port: rport})
+	s.L.Inject(srv)
+	return cli
+}
+
 // UDPReply is one datagram a service wrote back.
 type UDPReply struct {
 	To   string
